@@ -20,7 +20,18 @@ def setup(codes):
     return [["load_money"]] + [["cur_reg", c] for c in codes]
 
 
+#: user-declared currencies some generators add (symbol -> (minor-unit arg,
+#: smallest-fraction arg, the declared smallest fraction))
+USER = {"XCA": ("-", "1/20:2", Fraction(1, 20)), "XCB": ("2", "1/4:2", Fraction(1, 4))}
+
+
+def user_setup():
+    return [["cur_new", s, mi, sf] for s, (mi, sf, _) in USER.items()]
+
+
 def frac_of(code, table=None):
+    if code in USER:
+        return USER[code][2]
     if code in MINOR:
         return Fraction(1, 10 ** MINOR[code])
     return Fraction(1, 10 ** dict((c, m) for c, _, m in (table or iso_table()))[code])
